@@ -122,6 +122,23 @@ FILES = [
      [("Neg for $BInt<N>::neg", "Neg_neg"), ("Neg for &$BInt<N>::neg", "Neg_ref_neg"), ("BitAnd for $BInt<N>::bitand", "BitAnd_bitand"),
       ("BitOr for $BInt<N>::bitor", "BitOr_bitor"), ("BitXor for $BInt<N>::bitxor", "BitXor_bitxor"), ("Div for $BInt<N>::div", "Div_div"),
       ("Not for $BInt<N>::not", "Not_not"), ("Rem for $BInt<N>::rem", "Rem_rem")], {}),
+    ("src/int/numtraits.rs", "impls", "UI",
+     [("Bounded for $Int<N>::min_value", "Bounded_min_value"), ("Bounded for $Int<N>::max_value", "Bounded_max_value"),
+      ("CheckedNeg for $Int<N>::checked_neg", "CheckedNeg_checked_neg"), ("CheckedShl for $Int<N>::checked_shl", "CheckedShl_checked_shl"),
+      ("CheckedShr for $Int<N>::checked_shr", "CheckedShr_checked_shr"),
+      ("CheckedEuclid for $Int<N>::checked_div_euclid", "CheckedEuclid_checked_div_euclid"),
+      ("CheckedEuclid for $Int<N>::checked_rem_euclid", "CheckedEuclid_checked_rem_euclid"),
+      ("Euclid for $Int<N>::div_euclid", "Euclid_div_euclid"), ("Euclid for $Int<N>::rem_euclid", "Euclid_rem_euclid"),
+      ("WrappingNeg for $Int<N>::wrapping_neg", "WrappingNeg_wrapping_neg"), ("WrappingShl for $Int<N>::wrapping_shl", "WrappingShl_wrapping_shl"),
+      ("WrappingShr for $Int<N>::wrapping_shr", "WrappingShr_wrapping_shr"), ("Pow<ExpType> for $Int<N>::pow", "Pow_pow"),
+      ("Saturating for $Int<N>::saturating_add", "Saturating_saturating_add"), ("Saturating for $Int<N>::saturating_sub", "Saturating_saturating_sub"),
+      ("MulAdd for $Int<N>::mul_add", "MulAdd_mul_add"), ("One for $Int<N>::one", "One_one"), ("One for $Int<N>::is_one", "One_is_one"),
+      ("Zero for $Int<N>::zero", "Zero_zero"), ("Zero for $Int<N>::is_zero", "Zero_is_zero")],
+     {"AsPrimitive<$BUint<M>> for $Int<N>::as_": "cast (CastFrom): modelled by hand in Model/Cast.v (C09)",
+      "AsPrimitive<$BInt<M>> for $Int<N>::as_": "cast (CastFrom): modelled by hand in Model/Cast.v (C09)",
+      "MulAddAssign for $Int<N>::mul_add_assign": "`&mut self` store of mul_add (tied above); C18 runs it against TU_mul_add / TI_mul_add",
+      "Num for $Int<N>::from_str_radix": "forwards to the inherent parser (C10); strings are outside the glue vocabulary",
+      "num_traits::NumCast for $Int<N>::from": "generic over T: ToPrimitive; panics unconditionally"}),
     ("src/int/unchecked.rs", "impls", "UI", ["unchecked_add", "unchecked_sub", "unchecked_mul", "unchecked_shl", "unchecked_shr"], {}),
     ("src/buint/mod.rs", "mod_impl", "U",
      ["cast_signed", "rotate_left", "rotate_right", "unbounded_shl", "unbounded_shr", "pow", "div_euclid", "rem_euclid",
@@ -169,6 +186,30 @@ USES = [("src/buint/strict.rs", "crate::int::strict::impls!(U);"), ("src/bint/st
         ("src/buint/unchecked.rs", "crate::int::unchecked::impls!($BUint, U);"), ("src/bint/unchecked.rs", "crate::int::unchecked::impls!($BInt, I);"),
         ("src/buint/unchecked.rs", "crate::macro_impl!(unchecked);"), ("src/bint/unchecked.rs", "crate::macro_impl!(unchecked);")]
 USES += [(f[0], "crate::macro_impl!(%s);" % f[1]) for f in FILES if f[1] and not f[0].startswith("src/int/")]
+
+# functions produced by helper macros: (file defining the macro, macro, file with the invocations, Self types,
+#   [(invocation, metavariable assignment, {function key in the expansion: generated name})], {skipped invocation: reason})
+# every invocation of the macro in the invocation file must be listed (expanded or skipped).
+NT = lambda tr, m, ret: ("num_trait_impl!($Int, %s, %s, %s)" % (tr, m, ret), {"$Int": "$Int", "$tr": tr, "$method": m, "$ret": ret},
+                         {"%s for $Int<N>::%s" % (tr, m): "%s_%s" % (tr, m)})
+INSTANCES = [
+    ("src/bint/mod.rs", "ilog", "src/bint/mod.rs", "I", [("ilog!(ilog2)", {"$method": "ilog2"}, {"ilog2": "ilog2"})],
+     {"ilog!(ilog, base: Self)": FUEL + " (Model/Pow.v I_ilog)", "ilog!(ilog10)": FUEL + " (Model/Pow.v I_ilog10)"}),
+    ("src/bint/checked.rs", "checked_ilog", "src/bint/checked.rs", "I",
+     [("checked_ilog!(checked_ilog2)", {"$method": "checked_ilog2"}, {"checked_ilog2": "checked_ilog2"})],
+     {"checked_ilog!(checked_ilog10)": FUEL + " (Model/Pow.v I_checked_ilog10)"}),
+    ("src/int/numtraits.rs", "num_trait_impl", "src/int/numtraits.rs", "UI",
+     [NT("CheckedAdd", "checked_add", "Option<Self>"), NT("CheckedDiv", "checked_div", "Option<Self>"),
+      NT("CheckedMul", "checked_mul", "Option<Self>"), NT("CheckedRem", "checked_rem", "Option<Self>"),
+      NT("CheckedSub", "checked_sub", "Option<Self>"), NT("SaturatingAdd", "saturating_add", "Self"),
+      NT("SaturatingMul", "saturating_mul", "Self"), NT("SaturatingSub", "saturating_sub", "Self"),
+      NT("WrappingAdd", "wrapping_add", "Self"), NT("WrappingMul", "wrapping_mul", "Self"), NT("WrappingSub", "wrapping_sub", "Self"),
+      NT("OverflowingAdd", "overflowing_add", "(Self, bool)"), NT("OverflowingSub", "overflowing_sub", "(Self, bool)")], {}),
+]
+USES += [("src/bint/mod.rs", "ilog!(ilog2);"), ("src/bint/checked.rs", "checked_ilog!(checked_ilog2);"),
+         ("src/buint/numtraits.rs", "crate::int::numtraits::impls!($BUint, $BUint, $BInt, $Digit);"),
+         ("src/bint/numtraits.rs", "crate::int::numtraits::impls!($BInt, $BUint, $BInt, $Digit);"),
+         ("src/buint/numtraits.rs", "crate::macro_impl!(numtraits);"), ("src/bint/numtraits.rs", "crate::macro_impl!(numtraits);")]
 
 # ------------------------------------------------------------------------------------------------------------------
 # types:  "U" (BUint digit list)  "I" (BInt digit list)  "bool"  "Z" (ExpType/u32)  "ord"  ("opt", T)  ("tup", [T..])
@@ -426,6 +467,56 @@ def macro_region(src, name, path):
     if not m:
         die("macro_rules! %s not found in %s" % (name, path))
     return src[m.end() - 1:balanced(src, m.end() - 1, "{", "}")]
+
+
+def macro_arm_body(region, name, path):
+    """region = the `{ (pattern) => { body } }` of a single-arm macro_rules!: returns the body (without its braces)"""
+    i = 1
+    while region[i].isspace():
+        i += 1
+    if region[i] not in "([{":
+        die("macro %s: cannot find the pattern of its arm" % name)
+    j = balanced(region, i, region[i], {"(": ")", "[": "]", "{": "}"}[region[i]])
+    m = re.match(r"\s*=>\s*", region[j:])
+    if not m:
+        die("macro %s: no `=>` after the pattern" % name)
+    k = j + m.end()
+    if region[k] not in "{(":
+        die("macro %s: cannot find the body of its arm" % name)
+    e = balanced(region, k, region[k], {"{": "}", "(": ")"}[region[k]])
+    if region[e:].strip(" \t\n;") != "}":
+        die("macro %s has more than one arm: outside the supported subset of macro instantiation" % name)
+    return region[k + 1:e - 1]
+
+
+def instantiate(body, subst, name):
+    """one expansion of a macro body for the metavariable assignment `subst` ($x -> text).  A repetition group
+    `$( .. ) sep? [*+?]` is expanded exactly once when every metavariable inside it is assigned and dropped when none is
+    (a mixture is an error); no other form of repetition is supported"""
+    while True:
+        i = body.find("$(")
+        if i < 0:
+            break
+        j = balanced(body, i + 1, "(", ")")
+        m = re.match(r"\s*([^\s*+?$(){}\[\]])?\s*([*+?])", body[j:])
+        if not m:
+            die("macro %s: cannot parse the repetition operator after a `$( .. )` group" % name)
+        inner = body[i + 2:j - 1]
+        vs = set(re.findall(r"\$[A-Za-z_]\w*", inner))
+        have = [v for v in vs if v in subst]
+        if vs and len(have) == len(vs):
+            rep = inner
+        elif not have:
+            rep = ""
+        else:
+            die("macro %s: a repetition group mixes assigned and unassigned metavariables (%s)" % (name, ", ".join(sorted(vs))))
+        body = body[:i] + rep + body[j + m.end():]
+    def sub(m):
+        if m.group(0) not in subst:
+            die("macro %s: metavariable %s is not assigned by the instance table" % (name, m.group(0)))
+        return subst[m.group(0)]
+    keep = {"$BUint", "$BInt", "$Digit", "$Struct", "$Int"}
+    return re.sub(r"\$[A-Za-z_]\w*", lambda m: m.group(0) if (m.group(0) in keep and m.group(0) not in subst) else sub(m), body)
 
 
 FN_RE = re.compile(r"(?:pub(?:\(\w+\))?\s+)?(?:const\s+)?(?:unsafe\s+)?\bfn\s+(\$?\w+)\s*(?=[<(])")
@@ -971,6 +1062,7 @@ class Gen:
         self.nvar = nvar           # Coq name of the first digit-list parameter: N = length of it
         self.k = 0
         self.uses_dbg = False
+        self.uses_n = False
         self.nontail = 0           # > 0 while translating an operand / condition / let right-hand side (no `return` there)
 
     def fresh(self):
@@ -979,7 +1071,9 @@ class Gen:
 
     def n(self):
         if self.nvar is None:
-            die("needs N (an associated constant) but the function has no BUint/BInt parameter")
+            # an associated function without a BUint/BInt parameter (Bounded::min_value, Zero::zero ..): N is a parameter
+            self.uses_n = True
+            return "n"
         return "(length %s)" % self.nvar
 
     def rty(self, t):
@@ -1125,6 +1219,15 @@ class Gen:
             return self.seq([e[1]], env, bn)
         if k == "bin":
             op = e[1]
+            if op in ("*", "+", "-"):
+                # on BUint / BInt operands: std::ops Mul / Add / Sub, i.e. (int/ops.rs impls!, tied in GlueTieC04) the inherent mul / add / sub
+                k0 = self.k
+                self.nontail += 1
+                _, _, tl, _ = self.tr(e[2], env)
+                self.nontail -= 1
+                self.k = k0
+                if tl in ("U", "I"):
+                    return self.seq([e[2], e[3]], env, lambda vs: self.call(vs[0][1], {"*": "mul", "+": "add", "-": "sub"}[op], vs))
 
             def bb(vs):
                 (a, ta), (b, tb) = vs
@@ -1513,10 +1616,12 @@ def translate_fn(path, S, name, params_src, ret_src, body_src):
     elif not teq(ty, ret):
         die("body has type %s but the declared return type is %s" % (tshow(ty), tshow(ret)))
     coq_ret = ("outcome (%s)" % tshow(ret)) if eff else tshow(ret)
-    sig = ("(dbg : bool) " if g.uses_dbg else "") + "(w : Z) " + " ".join(binders)
+    if g.uses_n and "n" in env:
+        die("needs N as a parameter but a variable is called n")
+    sig = ("(dbg : bool) " if g.uses_dbg else "") + "(w : Z) " + ("(n : nat) " if g.uses_n else "") + " ".join(binders)
     if term.startswith("(") and term.endswith(")") and balanced(term, 0, "(", ")") == len(term):
         term = term[1:-1]
-    text = "Definition %s %s : %s :=\n  %s%s.\n" % (gname, sig, coq_ret, "".join(prelude), term)
+    text = "Definition %s %s : %s :=\n  %s%s.\n" % (gname, sig.rstrip(), coq_ret, "".join(prelude), term)
     return gname, text
 
 
@@ -1539,6 +1644,24 @@ def main():
     seen = set()
     failed = {}
     group = sys.argv[sys.argv.index("--for") + 1] if "--for" in sys.argv else None
+    def emit(path, selfs, fns, alias):
+        for S in selfs:
+            for f in fns:
+                if f[0] in alias:
+                    gname = "%s_%s" % (S, alias[f[0]])
+                    try:
+                        gname, text = translate_fn(path, S, alias[f[0]], *f[1:])
+                    except (SystemExit, Exception) as ex:
+                        # this function only: a stub, so that only ITS tie lemma (and its property's check) breaks
+                        failed[gname] = LAST_MSG[0] if isinstance(ex, SystemExit) else repr(ex)
+                        text = "(* NOT TRANSLATED: %s *)\nDefinition %s : unit := tt.\n" % (
+                            failed[gname].replace("*)", "* )").replace("(*", "( *"), gname)
+                    if gname in seen:
+                        die("duplicate generated name " + gname)
+                    seen.add(gname)
+                    out.append(text)
+                    count[path] = count.get(path, 0) + 1
+
     for path, macro, selfs, wanted, skip in FILES:
         CUR[0] = path
         src = strip_comments(open(os.path.join(REPO, path)).read())
@@ -1560,22 +1683,36 @@ def main():
                     CUR[0] = "%s %s" % (path, n_)
                     die("listed in SKIP but no longer in the source")
         out.append("(* ---- %s%s ---- *)" % (path, (" (macro %s)" % macro) if macro else ""))
-        for S in selfs:
+        emit(path, selfs, fns, alias)
+    # ---- functions produced by helper macros (one expansion per listed invocation)
+    for dpath, mname, ipath, selfs, insts, skipped in INSTANCES:
+        CUR[0] = "%s (macro %s)" % (dpath, mname)
+        body = macro_arm_body(macro_region(strip_comments(open(os.path.join(REPO, dpath)).read()), mname, dpath), mname, dpath)
+        isrc = strip_comments(open(os.path.join(REPO, ipath)).read())
+        found = []
+        for m in re.finditer(r"(?<![\w$:])%s!\s*\(" % re.escape(mname), isrc):      # not `doc::..::name!(..)`
+            found.append(re.sub(r"\s+", "", isrc[m.start():balanced(isrc, m.end() - 1, "(", ")")]))
+        listed = [re.sub(r"\s+", "", x[0]) for x in insts] + [re.sub(r"\s+", "", x) for x in skipped]
+        for f_ in found:
+            if f_ not in listed:
+                CUR[0] = "%s %s" % (ipath, f_)
+                die("invocation of an in-scope helper macro that the translator neither expands nor lists as skipped")
+        for l_ in listed:
+            if found.count(l_) != 1:
+                CUR[0] = "%s %s" % (ipath, l_)
+                die("listed macro invocation found %d times in the source" % found.count(l_))
+        out.append("(* ---- %s: expansions of %s! (defined in %s) ---- *)" % (ipath, mname, dpath))
+        for inv, subst, alias in insts:
+            CUR[0] = "%s %s" % (ipath, inv)
+            text = instantiate(body, subst, mname)
+            fns = find_fns(text, ipath)
             for f in fns:
-                if f[0] in wanted:
-                    gname = "%s_%s" % (S, alias[f[0]])
-                    try:
-                        gname, text = translate_fn(path, S, alias[f[0]], *f[1:])
-                    except (SystemExit, Exception) as ex:
-                        # this function only: a stub, so that only ITS tie lemma (and its property's check) breaks
-                        failed[gname] = LAST_MSG[0] if isinstance(ex, SystemExit) else repr(ex)
-                        text = "(* NOT TRANSLATED: %s *)\nDefinition %s : unit := tt.\n" % (
-                            failed[gname].replace("*)", "* )").replace("(*", "( *"), gname)
-                    if gname in seen:
-                        die("duplicate generated name " + gname)
-                    seen.add(gname)
-                    out.append(text)
-                    count[path] = count.get(path, 0) + 1
+                if f[0] not in alias:
+                    die("the expansion defines %s, which the instance table does not name" % f[0])
+            for k_ in alias:
+                if [f[0] for f in fns].count(k_) != 1:
+                    die("the expansion does not define %s exactly once" % k_)
+            emit("%s %s" % (ipath, inv), selfs, fns, alias)
     out.append("End Glue.")
     txt = "\n".join(out) + "\n"
     p = os.environ.get("RS2V_GLUE_OUT") or os.path.join(ROOT, "coq", "Generated", "Glue.v")
